@@ -55,6 +55,12 @@ fn text(c: &Value, fmt: usize) -> Option<String> {
 }
 
 /// `live`: the rate is r milliseconds (the real reloader thread sleeps it); otherwise 30 r seconds
+/// Reloader.tla, MaxLevel: the root stays at info in every version; the logger `deep` is at trace in odd versions and
+/// at warn in even ones, so the most verbose level of a version is trace (5) or info (3)
+pub fn deep_level(v: i64) -> &'static str {
+    if v % 2 != 0 { "trace" } else { "warn" }
+}
+
 pub fn text_rate(c: &Value, fmt: usize, live: bool) -> Option<String> {
     match c["k"].as_str().unwrap() {
         "absent" => None,
@@ -72,19 +78,19 @@ pub fn text_rate(c: &Value, fmt: usize, live: bool) -> Option<String> {
             let rate = if live { format!("{}ms", r) } else { format!("{} seconds", 30 * r) };
             Some(match fmt {
                 0 => format!(
-                    "{}appenders:\n  cap:\n    kind: capture\n    tag: v{}\nroot:\n  level: info\n  appenders:\n    - cap\n",
-                    if r > 0 { format!("refresh_rate: {}\n", rate) } else { String::new() }, v),
+                    "{}appenders:\n  cap:\n    kind: capture\n    tag: v{}\nroot:\n  level: info\n  appenders:\n    - cap\nloggers:\n  deep:\n    level: {}\n",
+                    if r > 0 { format!("refresh_rate: {}\n", rate) } else { String::new() }, v, deep_level(v)),
                 1 => {
                     let mut doc = json!({"appenders": {"cap": {"kind": "capture", "tag": format!("v{}", v)}},
-                                         "root": {"level": "info", "appenders": ["cap"]}});
+                                         "root": {"level": "info", "appenders": ["cap"]}, "loggers": {"deep": {"level": deep_level(v)}}});
                     if r > 0 {
                         doc["refresh_rate"] = json!(rate);
                     }
                     serde_json::to_string_pretty(&doc).unwrap()
                 }
                 _ => format!(
-                    "{}[appenders.cap]\nkind = \"capture\"\ntag = \"v{}\"\n\n[root]\nlevel = \"info\"\nappenders = [\"cap\"]\n",
-                    if r > 0 { format!("refresh_rate = \"{}\"\n", rate) } else { String::new() }, v),
+                    "{}[appenders.cap]\nkind = \"capture\"\ntag = \"v{}\"\n\n[root]\nlevel = \"info\"\nappenders = [\"cap\"]\n\n[loggers.deep]\nlevel = \"{}\"\n",
+                    if r > 0 { format!("refresh_rate = \"{}\"\n", rate) } else { String::new() }, v, deep_level(v)),
             })
         }
     }
